@@ -96,6 +96,8 @@ class Unit:
                     self.by_id[c['id']] = c
                     if c.get('kind') == 'RecordDecl':
                         self._index_decl(c)
+                elif c.get('kind') == 'EnumDecl':
+                    self._index_decl(c)
         elif k == 'EnumDecl':
             val = -1
             lst = []
